@@ -12,13 +12,14 @@ SC = 'yarel::scanner::Scanner::'
 
 def run(rep):
     w = rep.world('dev')
-    t1(rep, w)
-    t2(rep, w)
-    t3(rep, w)
-    t4(rep, w)
-    t5(rep, w)
-    t6(rep, w)
-    t7(rep, w)
+    rep.guard(t1, rep, w)
+    rep.guard(t2, rep, w)
+    rep.guard(t3, rep, w)
+    rep.guard(t4, rep, w)
+    rep.guard(t5, rep, w)
+    rep.guard(t6, rep, w)
+    rep.guard(t7, rep, w)
+    rep.guard(t8, rep, w)
 
 
 def t1(rep, w):
@@ -462,3 +463,48 @@ def t7(rep, w):
                     'the compiler panics on a short attribute' % ((k or {}).get('v', '?'), bound), g.loc(t.get('sp')))
     if n < 2:
         raise Broken('C03', 'floor', 'constant indexes into attr.arguments: %d' % n)
+
+
+def t8(rep, w):
+    """the scanner is handed positions up to and including len (the cursor may sit at the end of a text that stops in the middle of a
+    token): reading one element at such a position needs a `pos < len` test in front of it. (The healthy scanner indexes nothing
+    element-wise - it slices through checked helpers - so this rule normally has no instance; it exists for the "ASCII fast path" kind
+    of change. The compiler inserts a bounds-check assertion for every such read: those assertions are the instances.)"""
+    r = rep.rule('T8', 'every element-wise read in the scanner (each compiler-inserted bounds check) is preceded by an explicit comparison of that index with a length', floor=0)
+    n = 0
+    for f in sorted(w.yarel.fns.values(), key=lambda x: x.path):
+        if not f.file.endswith('scanner.rs'):
+            continue
+        org = None
+        for bi in sorted(f.normal_blocks()):
+            t = f.blocks[bi]['t']
+            if t['t'] != 'assert' or 'Bounds' not in (t.get('msg') or ''):
+                continue
+            if org is None:
+                org = origins(f)
+                dom = f.dominators()
+            n += 1
+            # the index: left operand of the Lt that feeds the assertion
+            cpl = op_place(t.get('c') or {})
+            idx_roots = set()
+            for s_ in f.blocks[bi]['s']:
+                rr = s_.get('r', {})
+                if cpl and (s_.get('d') or {}).get('l') == cpl['l'] and rr.get('rv') == 'bin' and rr['op'] == 'Lt':
+                    ipl = op_place(rr['a'])
+                    idx_roots = org.get(ipl['l'], {(('local', ipl['l']),)}) if ipl else set()
+            guarded = False
+            for b in f.normal_blocks():
+                tt = f.blocks[b]['t']
+                if tt['t'] != 'switch' or b == bi or b not in dom.get(bi, ()):
+                    continue
+                for s_ in f.blocks[b]['s']:
+                    rr = s_.get('r', {})
+                    if rr.get('rv') == 'bin' and rr['op'] in ('Lt', 'Le', 'Gt', 'Ge'):
+                        sides = [org.get((op_place(o) or {}).get('l'), set()) for o in (rr['a'], rr['b'])]
+                        has_len = any(any(q[0][0] == 'call' and q[0][2].endswith('::len') for q in sd) for sd in sides)
+                        same_idx = any(sd & idx_roots for sd in sides) if idx_roots else False
+                        if has_len and same_idx:
+                            guarded = True
+            r.check(guarded, '%s / element read #%d' % (f.path.rsplit('::', 1)[-1], n), 'the scanner indexes at a position that was not compared with the length first: at the end of a text that '
+                    'stops inside a token the position equals len and the compiler panics ("index out of bounds") instead of reporting an error', f.loc(t.get('sp')))
+    r.note('element-wise reads in the scanner on this tree: %d' % n)
